@@ -27,6 +27,13 @@ def nielsen_stub(orig):
     def nielsen(n, p, x):
         if not _symbolic(x):
             return orig(n, p, x)
+        if (int(n), int(p)) == (2, 1):
+            return real.li3(x)
+        if (int(n), int(p)) == (1, 1):
+            # Li2, complex above the cut: Im = -pi ln x
+            if bool(x > 1):
+                return real.C(real.li2_real(x), -real.PI_F * x.log())
+            return real.li2_real(x)
         if isinstance(x, (Dual,)):
             raise real.NotEncodable("derivative of Nielsen polylog not modelled")
         if isinstance(x, Env):
